@@ -124,9 +124,7 @@ theorem tlvLoop_step_int (R : ReaderSpecs) {σ : Type} (body : σ → Nat → Na
     rw [encTL_length] at h1
     have := tlLen_pos ty
     omega
-  have hoom : lenOutOfModel l = false := by simp [lenOutOfModel]; omega
-  simp only [tlvLoop, R.pos_eq r buf p h, R.length_eq r buf p h, hlt, ↓reduceIte, e1, Res.bind_ok, e2, hoom]
-  rfl
+  simp only [tlvLoop, R.pos_eq r buf p h, R.length_eq r buf p h, hlt, ↓reduceIte, e1, Res.bind_ok, e2]
 
 /-- from reader `r` at `p` with loop state `s`, the Interest loop arrives at reader `r'` at `p'`
     with loop state `s'` (for every sufficient fuel) -/
@@ -275,6 +273,18 @@ section
 variable (R : ReaderSpecs)
 include R
 
+/-- `readNat_at` for the short (≤ 8 byte) values of the Interest fields: no bound on the buffer needed -/
+theorem readNat_small_int (r : Rd) (buf : Bytes) (p k x w : Nat) (t : Bytes) (h : At r buf p)
+    (hb : buf.drop p = be k x ++ t) (hx : x < 256 ^ k) (hk : 256 ^ k ≤ u64) (hk8 : k ≤ 8) :
+    ∃ r', readNat r k w = .ok (x % 2 ^ w, r') ∧ At r' buf (p + k) ∧ buf.drop (p + k) = t := by
+  obtain ⟨hle, htk, hrest⟩ := drop_append_len h.2.2 hb
+  rw [be_length] at hle htk hrest
+  obtain ⟨r1, e1, a1, _⟩ := readBytesAcc_at R k r buf p 0 h hle
+  refine ⟨r1, ?_, a1, hrest⟩
+  have hg : ¬ (k > r.length - r.pos) := by rw [R.pos_eq r buf p h, R.length_eq r buf p h]; omega
+  have hneg : negInt k = false := by simp [negInt]; omega
+  simp [readNat, hneg, hg, e1, htk, accBytes_be k x hx hk]
+
 /-- Name (slot 2) -/
 theorem el_name (E : EncSpecs) (fn : Name) (st : InterestSt) {q : Nat} {r : Rd} {buf : Bytes} {p : Nat} {rest : Bytes}
     (h : At r buf p) (hb : buf.drop p = encNameField 7 fn ++ rest) (hv : NameValid fn)
@@ -394,7 +404,7 @@ theorem el_nonce (o : Option Nat) (st : InterestSt) {q : Nat} {r : Rd} {buf : By
     have hb1 : buf.drop p = encTL 10 ++ (encTL 4 ++ (be 4 x ++ rest)) := by
       rw [hb]; simp [optB, encNonce, encTL_small_int]
     obtain ⟨r2, a2, l2, d2, hstep⟩ := step_reach R (st := st) h hb1 (by omega) (by omega) (by decide : interestIdx 10 = some 6) hq (by omega)
-    obtain ⟨r3, e3, a3, d3⟩ := readNat_at R r2 buf _ 4 x 32 rest a2 d2 (by omega) (by simp [u64])
+    obtain ⟨r3, e3, a3, d3⟩ := readNat_small_int R r2 buf _ 4 x 32 rest a2 d2 (by omega) (by simp [u64]) (by omega)
     have hL : (optB (some x) encNonce).length = tlLen 10 + tlLen 4 + 4 := by
       simp [optB, encNonce, tlLen_small_int]
     rw [hL, show p + (tlLen 10 + tlLen 4 + 4) = p + tlLen 10 + tlLen 4 + 4 by omega]
@@ -420,7 +430,7 @@ theorem el_lt (o : Option Nat) (st : InterestSt) {q : Nat} {r : Rd} {buf : Bytes
     have hb1 : buf.drop p = encTL 12 ++ (encTL (natLen x) ++ (be (natLen x) x ++ rest)) := by
       rw [hb]; simp [optB, encNatField, encTL_small_int (natLen x) (by omega), List.append_assoc]
     obtain ⟨r2, a2, l2, d2, hstep⟩ := step_reach R (st := st) h hb1 (by omega) (by omega) (by decide : interestIdx 12 = some 7) hq (by omega)
-    obtain ⟨r3, e3, a3, d3⟩ := readNat_at R r2 buf _ (natLen x) x 64 rest a2 d2 (lt_pow_natLen_int x hx) (pow_natLen_le_int x)
+    obtain ⟨r3, e3, a3, d3⟩ := readNat_small_int R r2 buf _ (natLen x) x 64 rest a2 d2 (lt_pow_natLen_int x hx) (pow_natLen_le_int x) hn
     have hL : (optB (some x) (encNatField 12)).length = tlLen 12 + tlLen (natLen x) + natLen x := by
       simp [optB, encNatField, encTL_length, tlLen_small_int (natLen x) (by omega)]; omega
     rw [hL, show p + (tlLen 12 + tlLen (natLen x) + natLen x) = p + tlLen 12 + tlLen (natLen x) + natLen x by omega]
